@@ -50,9 +50,6 @@ func H_C09_Spec(v *sym.V) {
 	if v.Bool("minus") {
 		spec += "-"
 	}
-	if v.Bool("plus") && false {
-		spec += "+"
-	}
 	if v.Bool("sharp") {
 		spec += "#"
 	}
